@@ -14,6 +14,16 @@ variable {F : Type}
 /-- "ran to completion, or ran out of fuel in a PRNG-driven retry loop" -/
 def OkOrFuel {α : Type} (x : M α) : Prop := (∃ r, x = .ok r) ∨ x = .error .fuel
 
+/-- the failure of a run, if any (decidable form for concrete witnesses) -/
+def failOf {α : Type} : M α → Option Fail
+  | .ok _ => none
+  | .error e => some e
+
+theorem failOf_of_okOrFuel {α : Type} {x : M α} (h : OkOrFuel x) : failOf x = none ∨ failOf x = some .fuel := by
+  rcases h with ⟨r, hr⟩ | hr
+  · rw [hr]; exact Or.inl rfl
+  · rw [hr]; exact Or.inr rfl
+
 theorem isValidA_eq (avoid : Option Nat) (pats : List Cols) {c : Nat} (h : c < 16) :
     isValidA avoid pats c = .ok (decide (avoid ≠ some c) && pats.all (fun p => !p.testBit c)) := by
   unfold isValidA
